@@ -59,6 +59,7 @@ static int roundtrip(int32_t n, int32_t N, int32_t k, int32_t l, int32_t Bgbit, 
     // distinct per-row variances so that "stored once as the maximum" is observable
     LweKeySwitchKey *ks = sk->cloud.bk->ks; double vmax_ks = -1, vmax_bk = -1;
     for (int i = 0; i < ks->n; i++) for (int j = 0; j < ks->t; j++) for (int h = 0; h < ks->base; h++) { double v = 1e-6 * (1 + ((i * 7 + j * 3 + h) % 11)); ks->ks[i][j][h].current_variance = v; if (v > vmax_ks) vmax_ks = v; }
+    ks->ks[ks->n - 1][0][0].current_variance = vmax_ks = 5e-5;      /* the strict maximum sits in a digit-0 row */
     for (int i = 0; i < n; i++) for (int j = 0; j < gp->kpl; j++) { double v = 1e-7 * (1 + ((i * 5 + j) % 13)); sk->cloud.bk->bk[i].all_sample[j].current_variance = v; if (v > vmax_bk) vmax_bk = v; }
     std::ostringstream o1; export_tfheGateBootstrappingSecretKeySet_toStream(o1, sk);
     std::istringstream i1(o1.str()); TFheGateBootstrappingSecretKeySet *rk = new_tfheGateBootstrappingSecretKeySet_fromStream(i1);
